@@ -690,8 +690,9 @@ impl World {
                 return;
             }
         }
-        if w.tpk.len() != 2 {
-            self.finding("C17", "mpk-tracing-points".into(), format!("{} tracing points", w.tpk.len()));
+        let tracers: Option<Vec<Vec<u8>>> = self.msk_wire().map(|m| m.tracers.iter().map(|t| t.1.clone()).collect());
+        if tracers.map_or(false, |t| t != w.tpk) {
+            self.finding("C17", "mpk-tracing-points".into(), format!("{} tracing points, not the master key's public tracers", w.tpk.len()));
             return;
         }
         self.stats.bump("mpk_wire_checks");
@@ -1549,6 +1550,18 @@ impl World {
                         self.check_usk(i, if *keep { "refresh(keep)" } else { "refresh(nokeep)" });
                     }
                     _ => {
+                        // an issued key that its own master key refuses to refresh cannot follow the
+                        // rotation: for the rotation / revocation / disable workloads that is their
+                        // property's event, not only a contract violation
+                        if matches!(out, Out::Err(_)) && ["C04", "C05", "C06"].contains(&self.p.prop) {
+                            let prop = self.p.prop;
+                            if let Some(f) = self.stats.findings.last_mut() {
+                                if f.signature == "C09:unexpected-error:refresh" {
+                                    f.prop = prop.into();
+                                    f.signature = format!("{prop}:issued-key-cannot-be-refreshed:keep={keep}");
+                                }
+                            }
+                        }
                         // the call failed although it must not: was the key at least left alone?
                         let after = ser(&u).ok();
                         if before_usk != after {
@@ -1843,7 +1856,7 @@ impl World {
                     );
                     return;
                 }
-                if w.traps.len() != 2 {
+                if Some(w.traps.len()) != self.msk_wire().map(|m| m.tracers.len()) {
                     self.finding("C17", "encapsulation-traps".into(), format!("{} traps", w.traps.len()));
                     return;
                 }
@@ -2373,6 +2386,12 @@ impl Gen {
                 12 => {
                     if w.encs.is_empty() {
                         continue;
+                    }
+                    // two times out of three an encapsulation with several targets (its audience can
+                    // shrink without vanishing)
+                    let multi: Vec<usize> = w.encs.iter().enumerate().filter(|(_, e)| e.m.targets.len() >= 2).map(|(i, _)| i).collect();
+                    if !multi.is_empty() && self.rng.chance(2, 3) {
+                        return Op::Recaps { enc: *self.rng.pick(&multi) };
                     }
                     return Op::Recaps { enc: self.rng.below(w.encs.len()) };
                 }
